@@ -540,6 +540,9 @@ pub fn build_app_with(cfg: &Cfg, extra_rule: bool) -> App {
         app.add_observer(move |t: Trigger<OnAdd, Replicated>, mut commands: Commands| {
             if !mixed || t.target().index() % 2 == 0 {
                 commands.entity(t.target()).insert((HistMarker, PlainMarker));
+            } else if t.target().index() % 4 == 1 {
+                // only the marker that was registered later (after the older marker's functions)
+                commands.entity(t.target()).insert(PlainMarker);
             }
         });
     }
